@@ -461,6 +461,16 @@ def check_dedup_key_order(facts, rep, RULE):
                     for a in local_adts_in(c, m.group(1)):
                         if a["kind"] == "enum" or len(a["variants"][0]["fields"]) > 1:
                             keys.append((f["name"], a))
+    # the structural index is keyed by the entry's full structure, not by a rendering of it
+    if ts:
+        for v in ts["variants"]:
+            for f in v["fields"]:
+                if f["name"] == "type_to_id":
+                    m = _re.match(r"std::collections::BTreeMap<([^,]+), ", f["ty"])
+                    kt = m.group(1) if m else f["ty"]
+                    okk = kt.endswith("TypeEntryDetails")
+                    rep.ob(RULE, "structural-key-is-the-structure", okk, "type_to_id is keyed by TypeEntryDetails" if okk else
+                           "the structural index `type_to_id` is keyed by `%s`: two unnamed types are the same type only if their whole structure is equal (an external generic type with other parameters, an array of another element type); a key that renders or summarises the structure merges types that differ" % kt)
     if not rep.floor(RULE, "structural dedup maps (BTreeMap fields of TypeSpace keyed by an IR type)", len(keys), 1):
         return
     impls = {}
